@@ -272,6 +272,12 @@ def inventory_of(f, codes=None, skip_forwarded=True, extra_failure=None):
 
 
 
+def _zero_failure(f, b, i, r):
+    """entropy coders report `does not fit / not compressible` by returning 0"""
+    e = strip_casts(r.get("e"))
+    return e is not None and e.get("v") == 0
+
+
 def check_inventory(prog, res, rule, entries, extra_failure=None):
     """every frozen guard still exists (same error code, operator, anchors) and still
     dominates what it dominated: the function's success returns and/or its calls to the
@@ -281,9 +287,12 @@ def check_inventory(prog, res, rule, entries, extra_failure=None):
         by_fn.setdefault(e["fn"], []).append(e)
     for fname, es in sorted(by_fn.items()):
         f = prog.fn(fname, es[0].get("file"))
-        sites = guard_sites(f, extra_failure)
-        succ = success_nodes(f, extra_failure)
+        cache = {}
         for e in es:
+            xf = _zero_failure if e.get("zero_is_failure") else extra_failure
+            if id(xf) not in cache:
+                cache[id(xf)] = (guard_sites(f, xf), success_nodes(f, xf))
+            sites, succ = cache[id(xf)]
             want = Want(e["codes"] or None, e["op"], e["L"], e["R"])
             gs = []
             sh = e.get("shape")
